@@ -51,13 +51,18 @@ def ref_fn(r):
 def case(task):
     desc, p, Ns, seed = task[:4]
     vacuum = bool(task[4]) if len(task) > 4 else False
+    # task[4] == 'lowmem': a memory threshold the kinematics chain exceeds
+    extra_kw = {'memory_threshold_inGB': 2e-4} if (
+        len(task) > 4 and task[4] == 'lowmem') else None
+    vacuum = vacuum and extra_kw is None
     res = {'task': [list(desc), p, list(Ns), vacuum], 'err': {},
            'refmax': {}, 'raised': None}
     try:
         for N in Ns:
             rel, st, (X, Y, Z), inp = gc.build_core(desc, seed, p, N,
                                                     with_T=False,
-                                                    vacuum=vacuum)
+                                                    vacuum=vacuum,
+                                                    extra_kw=extra_kw)
             ref = gc.ref_chunks(st, fields.T0, X, Y, Z, ref_fn)
             s1 = max(float(ref['_scale1'].max()), 1e-3)
             with gc.quiet():
@@ -125,6 +130,9 @@ def build_tasks(tier, seed):
     tasks.append((('mink',), 8, (16, 32), seed, True))
     tasks.append((('scaled', 0.02, 'L2', 'S3', 'G2', 'D1', 0.0), 8, (16, 32),
                   seed))
+    # under memory pressure (the second stage of the cache clean-up runs)
+    tasks.append((('lattice', 'L2', 'S3', 'G2', 'D1', 0.0), 4, (12, 24),
+                  seed, 'lowmem'))
     return tasks
 
 
@@ -136,7 +144,8 @@ def main(tier):
     for t, r in zip(tasks, results):
         desc, p, Ns, seed = t[:4]
         tag = ':'.join(str(x) for x in desc) + f":p={p}" + (
-            ":vacuum" if len(t) > 4 and t[4] else "")
+            f":{'vacuum' if t[4] is True else t[4]}"
+            if len(t) > 4 and t[4] else "")
         if r['raised']:
             run.violation(f"C19:raised:{desc[0]}", f"{tag}: {r['raised']}",
                           {'task': r['task']})
